@@ -166,9 +166,11 @@ def run(src, q):
               u.FIREWALL: {}, u.HOSTS: hosts, u.STEP_LIMIT: None}
         return Scenario(sd, name='c20')
     chain = [[1 if abs(i - j) <= 1 else 0 for j in range(n)] for i in range(n)]
-    with stubs.sut():
-        m_net.Network(mk(chain)).get_minimal_hops()
-        r.hops_api = m_net.Network(mk(T)).get_minimal_hops()
+    r.hops_api = None
+    if n <= 5:          # the API variant doubles the work: not for the 32 768 topologies of 6 subnets
+        with stubs.sut():
+            m_net.Network(mk(chain)).get_minimal_hops()
+            r.hops_api = m_net.Network(mk(T)).get_minimal_hops()
     return r
 
 
@@ -194,8 +196,10 @@ def obligations(r):
     extra = len(set(r.sens)) - len(subnets)
     best = r.best
     hops = int(r.hops)
-    return [('hops_at_most_min_hosts_to_compromise', z3.BoolVal(hops <= best + extra)),
-            ('network_api_hops_at_most_min_hosts_to_compromise', z3.BoolVal(int(r.hops_api) <= best + extra))]
+    obl = [('hops_at_most_min_hosts_to_compromise', z3.BoolVal(hops <= best + extra))]
+    if r.hops_api is not None:
+        obl.append(('network_api_hops_at_most_min_hosts_to_compromise', z3.BoolVal(int(r.hops_api) <= best + extra)))
+    return obl
 
 
 def witnesses(r):
